@@ -290,10 +290,10 @@ def hist_task(t):
 
 
 def run(tier, seed):
-    maxlen = 2 if tier == "quick" else 3
+    maxlen = 3 if tier == "quick" else 4
     tasks = [(i, False, maxlen) for i in range(len(COND_KINDS))] + [(i, True, maxlen) for i in range(len(ACTION_KINDS))]
     r1 = pool.run_tasks("checks.c06:kind_task", tasks, chunksize=2)
-    hdepth = 3 if tier == "quick" else 4
+    hdepth = 4 if tier == "quick" else 5
     r2 = pool.run_tasks("checks.c06:hist_task", [(i, hdepth) for i in range(len(hist_events()))])
     res = r1 + r2
     n = sum(r["n"] for r in res)
